@@ -28,6 +28,7 @@
 import SSJ.Props.C10
 import SSJ.Props.C10_presentation
 import SSJ.Props.C13_wide
+import SSJ.Proofs.BodyOK
 
 namespace SSJ.Props.C10
 open SSJ SSJ.Props SSJ.EP
@@ -54,6 +55,8 @@ theorem njobs_irrelevant_setsim_wide (m : Measure) (hm : SetMeasure m) (j : Join
     (fun n c hq => by
       obtain ⟨fr'', hres, row, hrow, hk, -⟩ := C01.setsim_complete_wide m hm (j.set j.allowMissing n) t toks c l r hv hth hs
         ls hls rs hrs hlp hrp hne hq
+        (let hb := setSimJoinPy_bodyOK m (j.set j.allowMissing nj) t toks cpu l r hv fr h1
+         ⟨hb.lstr, hb.rstr, hb.noClash⟩)
       exact ⟨fr'', hres, row, hrow, hk⟩)
     hns nj cpu nj' cpu' fr fr' h1 h2
 
